@@ -16,6 +16,7 @@ import (
 	"github.com/oxia-db/oxia/server/kv"
 
 	"verif/harness/internal/hx"
+	"verif/harness/internal/kvsafe"
 )
 
 type chunkRec struct {
@@ -37,7 +38,7 @@ func snapshotChunks(c int64) []chunkRec {
 	dir, err := os.MkdirTemp(base, "snap-")
 	hx.Must(err)
 	defer os.RemoveAll(dir)
-	f, err := kv.NewPebbleKVFactory(&kv.FactoryOptions{DataDir: dir, CacheSizeMB: 1})
+	f, err := kvsafe.New(&kv.FactoryOptions{DataDir: dir, CacheSizeMB: 1})
 	hx.Must(err)
 	db, err := kv.NewDB(namespace, shardId, f, time.Hour, oxtime.SystemClock)
 	hx.Must(err)
